@@ -35,6 +35,9 @@ UNARY = [
     "t.abs().max(dim={d}, keepdim=True)[0]", "torch.maximum(t, -t)", "torch.minimum(t, -t)", "t.masked_fill(t > 0, 9)", "torch.zeros_like(t)", "torch.ones_like(t) * 3", "t.new_zeros(2)", "torch.full_like(t, 2)",
     "t.chunk(2, dim={d})[0]", "t.split(1, dim={d})[0]", "torch.split(t, 1, dim={d})[-1]", "t.narrow({d}, 0, 1)", "torch.diag(t.flatten())", "t.flatten().dot(t.flatten())", "torch.outer(t.flatten(), t.flatten())",
     "t.sum(dim=({d},))", "t.sum(dim=[0, -1])" , "t.mean(dim=(0, -1), keepdim=True)", "t.norm()", "torch.linalg.norm(t.float())", "t.float().std()", "t.float().var()", "t.median()", "t.float().sqrt()", "torch.exp(t.float())",
+    "(t / 2).long()", "(t * 0.75).int()", "t.long() % 2", "(t * 1.5).to(torch.long)", "(t / 4).to(dtype=torch.int64)", "t.long() ^ 1", "(t.long() & 1) ^ (t.long() >> 1 & 1)", "t[::2]", "t[1::2]", "t[..., 1::2]", "t.flatten()[::3]",
+    "t.permute(*range(t.dim() - 1, -1, -1))", "t.transpose(0, -1).transpose(0, -1)", "t.unsqueeze(-1)", "t.unsqueeze(1)", "t.unsqueeze(t.dim())", "t.repeat(*([2] * t.dim()))", "t.repeat(2, *([1] * t.dim()))", "t.cumsum({d})", "t.cumsum(dim={d})",
+    "torch.where(t > 0, t, torch.zeros_like(t))", "torch.where(t.abs() > 1, torch.ones_like(t), -torch.ones_like(t))", "t @ t.transpose(-1, -2) if t.dim() >= 2 else t @ t", "t.swapaxes(0, -1)",
     "t.any(dim={d}).numel()", "t.all(dim={d}, keepdim=True).sum()", "t.logical_not()", "torch.logical_and(t > 0, t < 2)", "torch.logical_xor(t > 0, t < 2)", "t.eq(1)", "t.ne(1)", "t.gt(0)", "t.le(0)", "torch.eq(t, 1)",
 ]
 BINARY = ["a + b", "a - b", "a * b", "a == b", "a != b", "(a - b).abs() > 1", "torch.abs(a - b) > 0", "(a != b).any(dim=-1)", "(a != b).float().sum()", "torch.stack([a, b], dim=0)", "torch.cat([a, b], dim=-1)", "torch.where(a > b, a, b)", "a @ b.T if a.dim() == 2 else (a * b).sum()", "torch.matmul(a, b.transpose(-1, -2))", "a[b > 0]", "(a > 0) == (b > 0)", "torch.bitwise_xor(a.long(), b.long())", "a.long() ^ b.long()", "a.long() & b.long()", "torch.maximum(a, b)", "a.float() / (b.float().abs() + 1)", "a % (b.abs() + 1)", "torch.equal(a, b)", "torch.allclose(a.float(), b.float())"]
